@@ -374,6 +374,14 @@ impl<'a> Ctx<'a> {
                 }
             }
         }
+        // … and is not refused: every input of origin "valid" is what the real encoder made of a structurally valid value
+        if origin == "valid" && cls == "err" {
+            self.out.monitor_fail(
+                &format!("C09/{}/valid-encoding-rejected", fmt),
+                "an encoding produced by the real encoder from a structurally valid value is refused by the real decoder",
+                serde_json::json!({"fmt": fmt, "hex": hex(&bytes[..bytes.len().min(2000)])}),
+            );
+        }
         let ratio = (peak as u64 * 1000) / (bytes.len() as u64 + 512);
         if ratio > self.max_ratio_milli {
             self.max_ratio_milli = ratio;
@@ -660,6 +668,22 @@ pub fn worker(seed: u64, tier: &str, start: usize) {
                 };
                 mutate_and_feed(&mut c, &mut r, "msg", &b, &lf, thorough && b.len() < 2000);
             }
+        }
+        // boundary values every run (the random picks above reach them only now and then): a ghost chain without entries, bare
+        // and inside a message; a handshake response without url; an empty service list
+        {
+            let mut g = gen_ghost(&mut r);
+            g.prehashes.clear();
+            g.previous_block_hashes.clear();
+            g.block_ids.clear();
+            g.block_ts.clear();
+            g.txs.clear();
+            g.gts.clear();
+            c.feed("ghost", &g.serialize(), "valid");
+            c.feed("msg", &Message::GhostChain(g).serialize(), "valid");
+            let mut h = gen_hsresp(&mut r);
+            h.block_fetch_url = String::new();
+            c.feed("hsresp", &h.serialize(), "valid");
         }
         for tag in [0u8, 16, 17, 100, 255] {
             let mut b = vec![tag];
